@@ -5,11 +5,16 @@ import runner, coreutil, gen_core
 from coreutil import Scenario, reads, toks
 from refcodec import decode_client_frames, ClientFrameError
 
-TRUSTED = ['correspondence: harness/world.py', 'frame-level correspondence: the real Frame.build / mask_payload / build_close_payload and the model driver ops `frame build|mask|closepayload`; the model\'s specification decoder `Spec.decodeClientFrame` (`frame decode`) against refcodec', 'harness/refcodec.py decode_client_frames: independent RFC 6455 section 5.2 decoder (requires MASK=1, minimal length, control <= 125, FIN on control)']
+TRUSTED = ['correspondence: harness/world.py', 'frame-level correspondence: the real Frame.build / mask_payload / build_close_payload and the model driver ops `frame build|mask|maskmech|lanemech|closepayload`; the model\'s specification decoder `Spec.decodeClientFrame` (`frame decode`) against refcodec', 'harness/refcodec.py decode_client_frames: independent RFC 6455 section 5.2 decoder (requires MASK=1, minimal length, control <= 125, FIN on control)',
+           'mask.py mechanics: CPython\'s bytes(<generator>), generator unpacking, bytearray.translate and extended-slice read / assignment behave as Model/Mask.lean models them (buildTable, unpackRows, translate, sliceGet, sliceSet); '
+           'the shape of the program they are applied to is read off the AST of mask.py on every run (harness/maskfacts.py -> Generated/Mask.lean) and the model is compared with the real mask_payload by the driver op `frame maskmech`, and its slice / translate primitives with CPython on arbitrary (start, step) pairs by `frame lanemech`']
 ASSUMPTIONS = ['send_json: json.dumps is a parameter of the model (ZFrame.sendJson; C03Z.send_json_is_send_text / send_json_as_act: the core driver is handed the equivalent send_text call)',
                'compressed frames: zlib is a parameter (ZFrame.Deflater); the byte-level comparison (driver op corez) instantiates it with an independent replay of the plaintext history through zlib',
                'key-schedule theorems: the application passes payloads shorter than 2^63 bytes (no Python object is longer); masking keys are os.urandom(4) with os.urandom returning as many bytes as asked', 'caller data untouched: only immutable bytes/str are accepted by the API; checked by the harness, not a theorem',
-               'mask_payload slice/translate mechanics checked exhaustively on the real code (4 lanes x 256 keys x 256 data bytes) rather than proved']
+               'mask_payload: the slice/translate mechanics are PROVED equal to the specification maskPayload (Properties/C03_Mask.lean: mech_eq_spec, for every 4-byte key and every data length) over a model of '
+               'Python\'s comprehension / unpacking / translate / extended-slice semantics; what remains assumed is that CPython implements those four constructs as modelled (differentially tested, and the exhaustive '
+               '4 lanes x 256 keys x 256 data bytes check of the real function is kept)',
+               'mask_payload with a key that is not 4 bytes long raises ValueError and leaves the data untouched (C03_Mask.wrong_key_length); the specification maskPayload is only used with 4-byte keys (os.urandom(4))']
 
 LENS = list(range(0, 131)) + [65530, 65535, 65536, 65537, 70000]
 
@@ -139,6 +144,104 @@ def real_mask(case):
     key, data = bytes.fromhex(case[0]), bytearray.fromhex(case[1])
     mask_payload(key, data)
     return bytes(data).hex()
+
+
+def real_maskmech(case):
+    """mask_payload on a bytearray: 'ok <content>' or 'EXC:<class> <content of the bytearray after the exception>'"""
+    from lomond.mask import mask_payload
+    key, data = bytes.fromhex(case[0]), bytearray.fromhex(case[1])
+    try:
+        ret = mask_payload(key, data)
+    except Exception as e:  # noqa
+        return 'EXC:%s %s' % (type(e).__name__, bytes(data).hex())
+    if ret is not None:
+        return 'RETURNED:%r' % (ret,)
+    return 'ok ' + bytes(data).hex()
+
+
+def real_lanemech(case):
+    """one statement data[ts::tst] = data[ss::sst].translate(_XOR_TABLE[kb]) on a bytearray, as CPython executes it"""
+    from lomond.mask import _XOR_TABLE
+    ts, tst, ss, sst, kb, data = case
+    d = bytearray.fromhex(data)
+    try:
+        d[ts::tst] = d[ss::sst].translate(_XOR_TABLE[kb])
+    except Exception as e:  # noqa
+        return 'EXC:%s %s' % (type(e).__name__, bytes(d).hex())
+    return 'ok ' + bytes(d).hex()
+
+
+def explore_lanemech(res, tier, rng, model_ok):
+    """the model's slice read / translate / slice assignment against CPython on arbitrary (start, step) pairs: equal slices, slices of
+       different sizes (ValueError), an empty right-hand side (CPython deletes the target positions), step 1 (splice), step 0"""
+    cases = []
+    for n in list(range(0, 14)) + [31, 32, 33]:
+        for _ in range(12 if tier == 'quick' else 60):
+            ts, ss = rng.randint(0, 6), rng.randint(0, 6)
+            tst, sst = rng.choice([0, 1, 2, 3, 4, 4, 5]), rng.choice([0, 1, 2, 3, 4, 4, 5])
+            if rng.random() < 0.5:
+                ss, sst = ts, tst
+            cases.append((ts, tst, ss, sst, rng.choice([0, 255, rng.randrange(256)]), gen_core.rand_bytes(rng, n).hex()))
+    reals = [real_lanemech(c) for c in cases]
+    lines = ['frame lanemech %d %d %d %d %d %s' % (c[:5] + (c[5] or '-',)) for c in cases]
+    models = runner.model_run(lines) if model_ok else [None] * len(lines)
+    for c, line, real, model in zip(cases, lines, reals, models):
+        res.case(('lanemech', c), nontrivial=True)
+        res.count('lanemech-' + ('exc' if real.startswith('EXC') else 'same-slice' if c[:2] == c[2:4] else 'other-slice'))
+        res.traces_validated += 1
+        if model is not None and real.strip() != model.strip():
+            res.diffs.append(dict(input=line[:300], real=real[:300], model=model[:300]))
+
+
+def maskmech_cases(rng, tier):
+    """(key hex, data hex): the mechanics model of mask.py (driver op `frame maskmech`) against the real function"""
+    keys = [b'\x00\x00\x00\x00', b'\xff\xff\xff\xff', b'\x00\xff\x00\xff', b'\xff\x00\xff\x00', b'\x01\x02\x04\x08', b'\x80\x40\x20\x10']
+    for lane in range(4):
+        for v in (0, 255):
+            k = bytearray(gen_core.rand_bytes(rng, 4)); k[lane] = v
+            keys.append(bytes(k))
+    keys += [gen_core.rand_bytes(rng, 4) for _ in range(4 if tier == 'quick' else 40)]
+    small = list(range(0, 10)) + [4 * k + d for k in (3, 4, 5, 31, 32, 63, 64) for d in (-1, 0, 1)]
+    big = [4 * k + d for k in (250, 256, 1024) for d in (-1, 0, 1)] + [1000, 1001, 1002, 1003, 2500]
+    out = []
+    for n in small:
+        for k in keys:
+            out.append((k, gen_core.rand_bytes(rng, n)))
+    for n in big:
+        for k in rng.sample(keys, 3 if tier == 'quick' else 8):
+            out.append((k, gen_core.rand_bytes(rng, n)))
+    # every data byte value in every lane; all-zero and all-ones data (the result shows the key / its complement)
+    for k in keys[:6] + keys[-2:]:
+        out.append((k, bytes(range(256)) + bytes(range(255, -1, -1)) + bytes(range(3))))
+        out.append((k, b'\x00' * 13)); out.append((k, b'\xff' * 13))
+    for _ in range(40 if tier == 'quick' else 600):
+        out.append((gen_core.rand_bytes(rng, 4), gen_core.rand_bytes(rng, rng.choice([rng.randint(0, 40), rng.randint(0, 40), rng.randint(41, 700)]))))
+    # keys of the wrong length: ValueError from the unpacking, the data untouched
+    for kl in (0, 1, 2, 3, 5, 6, 7, 8, 16):
+        for n in (0, 1, 3, 4, 5, 8, 21):
+            out.append((gen_core.rand_bytes(rng, kl), gen_core.rand_bytes(rng, n)))
+    out.append((b'\xff\xff\xff', b'\x01\x02\x03\x04\x05')); out.append((b'\x00' * 5, b'\x01\x02\x03\x04\x05'))
+    return [(bytes(k).hex(), bytes(d).hex()) for k, d in out]
+
+
+def explore_maskmech(res, tier, rng, model_ok):
+    cases = maskmech_cases(rng, tier)
+    reals = [real_maskmech(c) for c in cases]
+    lines = ['frame maskmech %s %s' % (k or '-', d or '-') for k, d in cases]
+    models = runner.model_run(lines) if model_ok else [None] * len(lines)
+    for (k, d), line, real, model in zip(cases, lines, reals, models):
+        kb, db = bytes.fromhex(k), bytes.fromhex(d)
+        res.case(('maskmech', k, d), nontrivial=True)
+        res.count('maskmech-key%d' % len(kb) if len(kb) != 4 else 'maskmech-len%s' % ('0' if not db else '%%4=%d' % (len(db) % 4)))
+        res.traces_validated += 1
+        if model is not None and real.strip() != model.strip():
+            res.diffs.append(dict(input=line[:300], real=real[:300], model=model[:300]))
+        # oracle (no model): with a 4-byte key, RFC 6455 section 5.3: octet i of the result is octet i of the data XOR octet i mod 4 of the key
+        if len(kb) == 4:
+            want = 'ok ' + bytes(b ^ kb[i % 4] for i, b in enumerate(db)).hex()
+            if real != want:
+                res.failures.append(dict(cls='mask-table', what='mask_payload is not XOR with key[i % 4]', input=[k, d[:200]], observed=real[:100], expected=want[:100]))
+    res.exhaustive['maskmech_wrong_key_lengths'] = 9
 
 
 def real_close_payload(case):
@@ -493,12 +596,16 @@ def explore(res, tier, seed, model_ok=True):
     res.rule = ('API calls made by the application at the Ready event on the real WebSocket: send_binary/send_text with every length 0..130 and around 65536, ping/pong/close lengths 0..130, '
                 'texts over all planes, lone surrogates, wrong argument types, out-of-range close codes; with and without negotiated compression and compress flag; every written frame decoded by the independent decoder; '
                 'exhaustive: mask_payload on 4 lanes x 256 key bytes x 256 data bytes; '
+                'mask mechanics: the model of mask.py\'s table / unpacking / translate / slice assignment (frame maskmech) against the real mask_payload: lengths 0..9, 4k-1, 4k, 4k+1 up to 4097, keys with 00 and ff bytes in every lane, all byte values, and keys of 0,1,2,3,5,6,7,8,16 bytes (ValueError, data untouched); single statements data[s::t] = data[s\'::t\'].translate(row) with arbitrary slices against CPython (size mismatch, empty right-hand side, steps 0 and 1); '
                 'frame level: the real Frame.build (all 16 FIN/RSV combinations, lengths on both sides of 126 and 65536, every key byte value in every lane) against the model and against the independent decoder, '
                 'the model\'s specification decoder against the independent decoder on valid frames, frame sequences and header malformations (unmasked, truncated, non-minimal lengths, 2^63); '
                 'histories: 8 calls (compressed and not, control frames) in one connection under 10 reply-extension spellings (incl. whitespace around the equals sign and quoted values) (window bits, no_context_takeover either side, none), inflated by a peer configured from the REPLY BYTES, '
                 'and the same on ONE WebSocket object connected 2 or 3 times with every ordered pair of negotiations (each connection judged by its own negotiation, and against the model of a fresh connection); '
                 'non-trivial = every call; distinct by call')
-    bad = real_mask_table(None)
+    try:
+        bad = real_mask_table(None)
+    except Exception as e:      # a mask_payload that raises on a 4-byte key and plain data is a failure of the property, not of the harness
+        bad = [('raised', type(e).__name__, str(e)[:80])]
     res.exhaustive['mask_lane_key_byte'] = 4 * 256 * 256
     res.evaluations += 4 * 256
     for b in bad[:3]:
@@ -574,6 +681,8 @@ def explore(res, tier, seed, model_ok=True):
             fail('unmasked payload differs from the caller\'s data'); continue
     coreutil.check_corr(res, pairs)
     explore_frames(res, tier, rng, model_ok)
+    explore_maskmech(res, tier, random.Random(seed * 7919 + 3), model_ok)     # its own stream: the other generators keep their cases
+    explore_lanemech(res, tier, random.Random(seed * 7919 + 4), model_ok)
     explore_histories(res, tier, rng, model_ok)
     explore_wire(res, tier, rng, model_ok)
     res.samples += [pairs[0][1][-200:], pairs[len(pairs) // 2][1][-200:]]
